@@ -28,6 +28,7 @@ type Engine struct {
 	effDone     map[*ssa.Function]bool
 	viaGlobal   map[ssa.Instruction]string          // write sites that go through a value read from a package-level variable
 	effSites    map[*ssa.Function][]ssa.Instruction // write sites to pre-existing memory, per function
+	tinfo       map[string]*types.Info              // type information per package path (function-local constants)
 	activeProp  string                              // when set, only clauses serving this property are used (assumed and checked)
 }
 
@@ -111,7 +112,7 @@ type Frame struct {
 	noFrame    bool
 	splitWhere []string
 	inDup      bool
-	dbg        map[string]ssa.Value // source names of plain SSA values (from DebugRef)
+	dbg        map[string][]ssa.Value // source names of plain SSA values (from DebugRef), in execution order
 }
 
 func (f *Frame) where(pos token.Pos) string {
@@ -703,9 +704,9 @@ func (f *Frame) execInstr(ins ssa.Instruction, reach string, h *Heap) string {
 				break // a package-level variable is not a local name
 			}
 			if f.dbg == nil {
-				f.dbg = map[string]ssa.Value{}
+				f.dbg = map[string][]ssa.Value{}
 			}
-			f.dbg[id.Name] = i.X
+			f.dbg[id.Name] = append(f.dbg[id.Name], i.X)
 		}
 	case *ssa.Alloc:
 		et := i.Type().(*types.Pointer).Elem()
